@@ -21,17 +21,22 @@ Ms == IF "TIER" \in DOMAIN IOEnv /\ IOEnv.TIER = "thorough" THEN 1500 ELSE 150
 Cases == {[keys |-> k, sameShard |-> s, limit |-> m, purge |-> p, workers |-> w, ms |-> Ms] :
             k \in {2, 3}, s \in BOOLEAN, m \in {"room", "evicting"}, p \in BOOLEAN, w \in {4, 16}}
 
+(* C11 under concurrency: many more keys than the cache has room for are looked up from all CPUs; afterwards (and at
+   a few moments in between) the number of resident entries is read from the shards: never more than the configured size *)
+CapacityCases == {[capacity |-> TRUE, size |-> s, workers |-> w, ms |-> Ms] : s \in {1, 10, 130, 1003, 1029}, w \in {4, 16}}
+
 VARIABLE l
 
 EmitInit ==
   /\ l = 0
-  /\ LET Q == SetToSeq(Cases) IN ndJsonSerialize(IOEnv.OUT, Q)
+  /\ LET Q == SetToSeq(Cases) \o SetToSeq(CapacityCases) IN ndJsonSerialize(IOEnv.OUT, Q)
 EmitNext == FALSE /\ l' = l
 
 (* observation: lookups done, how many returned an entry of another key, how many returned nothing *)
 Obs == ndJsonDeserialize(IOEnv.OBS)
 
-Ok(o) == o.lookups > 0 /\ o.wrong = 0 /\ o.none = 0
+Ok(o) == IF "capacity" \in DOMAIN o.case THEN o.lookups > 0 /\ o.maxResident <= o.case.size
+         ELSE o.lookups > 0 /\ o.wrong = 0 /\ o.none = 0
 
 CheckInit == l = 0
 CheckNext == l < Len(Obs) /\ l' = l + 1
